@@ -22,6 +22,10 @@ type bfsCheck struct {
 	propFilter string // when set, only violations whose signature starts with "<prop>:" are this check's; others are printed as notes
 	variants   []string // further configurations searched by the same check; spec receives "<tier>/<variant>"
 	extra      func(r *ev.Run, tier string) (evals, nontrivial int64) // a further exhaustive enumeration reported in the same evidence file
+	// divergenceViolates: the statement fixes the exact outcome of every operation, so two executions of the same history
+	// that disagree (the live instance versus a replay on re-opened instances) cannot both conform: a replay divergence is
+	// reported as a violation instead of a harness error
+	divergenceViolates bool
 }
 
 func registerBFS(b bfsCheck) {
@@ -46,6 +50,10 @@ func runBFS(b bfsCheck, tier string) int {
 		spec := b.spec(vt)
 		spec.WorkerArgs = []string{"worker", b.id, vt}
 		res, err := bfs.Run(spec)
+		if err != nil && b.divergenceViolates && strings.Contains(err.Error(), "replay divergence") {
+			r.Violation(b.id+":outcome-depends-on-what-the-process-executed-before", err.Error(), map[string]interface{}{"engine": "bfs", "check": b.id, "tier": vt, "divergence": err.Error()})
+			return r.Finish(ev.Coverage{Rule: b.rule, Exhaustive: false, Bounds: b.bounds(tier), Assumptions: b.assume})
+		}
 		if err != nil {
 			fmt.Printf("HARNESS-ERROR: %s: %v\n", b.id, err)
 			return 2
